@@ -341,6 +341,9 @@ func (g *TypeGen) keyType(depth int) reflect.Type {
 				if !ft.Comparable() || ft == tTime || ft.Kind() == reflect.Ptr || ft.Kind() == reflect.Float32 || ft.Kind() == reflect.Float64 || extKind(ft) >= 0 {
 					ok = false
 				}
+				if skipped(k.Field(i)) {
+					ok = false // keys that differ only in an unencoded field collapse after decoding
+				}
 			}
 			if !ok {
 				continue
